@@ -335,6 +335,10 @@ def check_case(case, rec):
                             k = m.add_atom('C')
                             m.add_bond(nums[c % len(nums)], k, 1)
                             done.append('add_atom')
+                        if c % 3 == 0:
+                            z = nums[(a + 2) % len(nums)]  # attribute change in the same transaction
+                            m.atom(z).charge = 1 if m.atom(z).charge != 1 else 0
+                            done.append(f'charge:{z}')
                     history.append('commit[' + ';'.join(done) + ']')
                 else:
                     with m:
@@ -436,6 +440,33 @@ def check_case(case, rec):
                 raise
             rec.fail('edit-raises', f'{where}: {type(e).__name__}: {e} at {fr}', sig=f'{op}:{type(e).__name__}@{fr}')
             return
+        # a derived object (copy / substructure / union) must describe the configuration of its source: every labelled centre whose
+        # neighbourhood is intact carries the same configuration, read for the source's own reference environment
+        if op in ('copy', 'substructure', 'union', 'ior') and sources:
+            src = sources[-1][0] if op != 'ior' else None
+            if src is not None and op == 'union':
+                src = sources[-2][0]
+            if src is not None:
+                for n, env in src.stereogenic_tetrahedrons.items():
+                    if src.atom(n).stereo is None or n not in m._atoms or set(src._bonds[n]) != set(m._bonds[n]):
+                        continue
+                    if m.atom(n).stereo is None:
+                        continue  # stereogenicity may legitimately be lost in a fragment
+                    if n in m.stereogenic_tetrahedrons and \
+                            m._translate_tetrahedron_sign(n, env) != src._translate_tetrahedron_sign(n, env):
+                        rec.fail('derived-stereo', f'{where}: centre {n} has the opposite configuration in the {op} result', sig=op)
+                        return
+                for (a_, b_), env in src.stereogenic_cis_trans.items():
+                    i, j = src._stereo_cis_trans_centers[a_]
+                    if src.bond(i, j).stereo is None or not all(x in m._atoms for x in (a_, b_, i, j, env[0], env[1])):
+                        continue
+                    if (a_, b_) not in m.stereogenic_cis_trans or m.bond(i, j).stereo is None or \
+                            set(src._bonds[a_]) != set(m._bonds[a_]) or set(src._bonds[b_]) != set(m._bonds[b_]):
+                        continue
+                    if m._translate_cis_trans_sign(a_, b_, env[0], env[1]) != src._translate_cis_trans_sign(a_, b_, env[0], env[1]):
+                        rec.fail('derived-stereo', f'{where}: double bond {i}-{j} has the opposite configuration in the {op} result',
+                                 sig=op)
+                        return
         if mutation:
             mutated_since = True
         where = f'after {history} on seed {str(molgen.build_kekule(case["seed_mol"]))!r}'
